@@ -58,6 +58,14 @@ static void scalar(bn_t k, const char *tok, const bn_t r) {
 	} else vh_bn_set(k, tok);
 }
 
+static void all_exps(fp12_t c1, fp12_t c2, fp12_t c3, fp12_t d1, fp12_t e1, fp12_t x, fp12_t y, fp12_t xy) {
+	pp_exp_k12(c1, x);          /* out of place */
+	pp_exp_k12(c2, c2);         /* in place (c2 holds a copy of x) */
+	pc_exp(c3, x);              /* the pc-level name */
+	pp_exp_k12(d1, y);
+	pp_exp_k12(e1, xy);
+}
+
 #define MAXN 6
 int main(int argc, char **argv) {
 	long start, idx = 0;
@@ -83,6 +91,33 @@ int main(int argc, char **argv) {
 			scalar(a[i], vh_tok[4 + 2 * i], r); scalar(b[i], vh_tok[5 + 2 * i], r);
 			ep_mul_basic(p[i], g1, a[i]); ep_norm(p[i], p[i]);
 			ep2_mul_basic(q[i], g2, b[i]); ep2_norm(q[i], q[i]);
+		}
+		if (strcmp(fn, "exp") == 0) {
+			/* the final exponentiation as a function of its own: exp <id> 0 0 <seed hex> */
+			fp12_t x, y, xy, c1, c2, c3, d1, e1; uint8_t seed[32]; size_t sl = strlen(vh_tok[4]);
+			fp2_t e2;
+			fp12_null(x); fp12_null(y); fp12_null(xy); fp12_null(c1); fp12_null(c2); fp12_null(c3); fp12_null(d1); fp12_null(e1);
+			fp12_new(x); fp12_new(y); fp12_new(xy); fp12_new(c1); fp12_new(c2); fp12_new(c3); fp12_new(d1); fp12_new(e1);
+			for (i = 0; i < 32; i++) seed[i] = (uint8_t)(vh_tok[4][i % sl] * 7 + i);
+			core_get()->seeded = 0; rand_seed(seed, 32);
+			fp12_rand(x); fp12_rand(y); fp12_mul(xy, x, y);
+			fp12_set_dig(c1, 7); fp12_set_dig(c3, 9); fp12_copy(c2, x);
+			VH_TRY(err, all_exps(c1, c2, c3, d1, e1, x, y, xy));
+			vh_begin("expo");
+			vh_str("fn", fn); vh_int("id", id);
+			vh_digs("p", fp_prime_get(), RLC_FP_DIGS);
+			fputs(",\"r\":", vh_out); vh_bn_raw(r);
+			fp2_null(e2); fp2_new(e2);
+			fp2_zero(e2); fp_set_dig(e2[1], 1); fp2_sqr(e2, e2); fputs(",\"usq0\":", vh_out); val_raw(e2[0]); fputs(",\"usq1\":", vh_out); val_raw(e2[1]);
+			fp2_zero(e2); fp_set_dig(e2[0], 1); fp2_mul_nor(e2, e2); fputs(",\"xi0\":", vh_out); val_raw(e2[0]); fputs(",\"xi1\":", vh_out); val_raw(e2[1]);
+			fp2_free(e2);
+			out_fp12("x", x); out_fp12("y", y); out_fp12("xy", xy);
+			out_fp12("c1", c1); out_fp12("c2", c2); out_fp12("c3", c3); out_fp12("d1", d1); out_fp12("e1", e1);
+			vh_int("err", err); vh_int("code", vh_code());
+			vh_end();
+			fp12_free(x); fp12_free(y); fp12_free(xy); fp12_free(c1); fp12_free(c2); fp12_free(c3); fp12_free(d1); fp12_free(e1);
+			alarm(0);
+			continue;
 		}
 		vh_begin("pair");
 		vh_str("fn", fn); vh_int("id", id); vh_int("zm", zm); vh_int("n", n);
